@@ -347,7 +347,7 @@ def run(ctx):
         sc = {"runs": [{"o": x["o"], "crash": x["crash"]} for x in runs], "folds": b["nf"], "presplit": NFOLDS["presplit"],
               "features": NFOLDS["features"], "single": NFOLDS["single"], "uea": NFOLDS["uea"]}
         if isinstance(obs, dict):
-            ctx.violation(sc, "machinery/crash: " + obs["crash"])
+            ctx.violation(sc, ("" if "FoldOfItsOwnDataset" in obs["crash"] else "machinery/crash: ") + obs["crash"])
             continue
         before = {"pred": [], "fitted": [], "S": [], "D": []}
         for rn, (run_, o) in enumerate(zip(runs, obs), start=1):
